@@ -32,7 +32,9 @@ fn gen_common_msg(g: &mut HistGen, shadow: &ModelState) -> Msg {
                 } else {
                     gen_reg_value(g.rng, 255).0
                 };
-                g.c(Contrib::Ese, false, vec![v], &level, i == 0)
+                // (now and then with a surplus parameter: refused with -108, before or after the write)
+                let ps = if g.rng.chance(1, 14) { vec![v, Elem::Dec("7".into())] } else { vec![v] };
+                g.c(Contrib::Ese, false, ps, &level, i == 0)
             }
             6 => g.c(Contrib::Ese, true, vec![], &level, i == 0),
             7 | 8 => {
@@ -41,7 +43,8 @@ fn gen_common_msg(g: &mut HistGen, shadow: &ModelState) -> Msg {
                 } else {
                     gen_reg_value(g.rng, 255).0
                 };
-                g.c(Contrib::Sre, false, vec![v], &level, i == 0)
+                let ps = if g.rng.chance(1, 14) { vec![v, Elem::Dec("7".into())] } else { vec![v] };
+                g.c(Contrib::Sre, false, ps, &level, i == 0)
             }
             9 => g.c(Contrib::Sre, true, vec![], &level, i == 0),
             10 => g.c(Contrib::Esr, true, vec![], &level, i == 0),
